@@ -17,7 +17,7 @@ RULE = ("a case is a typed list or dict field (item/key/value families with conc
         "contents, order, length, return value and result types are compared after every step; copies, + and += "
         "results must stay typed (they must reject an invalid item); non-trivial = >= 2 operations compared with "
         ">= 1 mutation; distinct = distinct (field, history)")
-REQUIRED = ("setdefault_lookups_of_existing_keys", "update_keywords_named_like_parameters", "positions_given_as_index_objects", "members_equal_up_to_an_inner_default_changed_in_place", "dict_equality_with_a_twin_configuration", "list_equality_with_a_twin_configuration", "dict_equality_queries", "list_equality_queries", "config_item_lists", "ops_compared", "list_ops_compared", "dict_ops_compared", "typed_result_probes", "op:setslice", "op:ior",
+REQUIRED = ("dict_equality_with_a_sibling_field", "setdefault_lookups_of_existing_keys", "update_keywords_named_like_parameters", "positions_given_as_index_objects", "members_equal_up_to_an_inner_default_changed_in_place", "dict_equality_with_a_twin_configuration", "list_equality_with_a_twin_configuration", "dict_equality_queries", "list_equality_queries", "config_item_lists", "ops_compared", "list_ops_compared", "dict_ops_compared", "typed_result_probes", "op:setslice", "op:ior",
             "op:setdefault", "op:update", "op:extend", "op:iadd", "iter:iter", "iter:proxy_other", "iter:mapping",
             "update:proxy_same+kwargs", "update:proxy_other+kwargs", "update:pairs+kwargs", "iter:gen_dedup", "iter:multimap",
             "sorts_with_key_and_reverse", "members_removed_by_object", "equal_members_added")
@@ -230,6 +230,10 @@ def run(case, ctx, res):
     other = _loosen(f)
     other["key"] = "other"
     root = {"kind": "schema", "key": "", "fields": [f, other]}
+    if f["family"] == "dict" and (f.get("valf") or {}).get("family") in ("int", "port"):
+        # a sibling dict field whose values are declared as another number type (for comparisons of equal entries)
+        root["fields"].append({"kind": "field", "key": "other_float", "family": "dict", "params": {}, "keyf": _loose_field(f.get("keyf")),
+                               "valf": {"kind": "field", "family": "float", "params": {}}})
     built = spec.build(cc, root)
     cfg = built.schema()
     is_list = f["family"] == "list"
@@ -799,6 +803,19 @@ def _dict_op(cc, cfg, f, proxy, ref, op, res):
             if twin_c is not None:
                 checks += [("eq-twin", proxy == twin_c, True), ("ne-twin", proxy != twin_c, False), ("eq-twin-reversed", twin_c == proxy, True)]
                 res.count("dict_equality_with_a_twin_configuration")
+            # ... and with the typed dicts of sibling fields that hold equal entries (1 == 1.0 for the builtin, too)
+            for sib in ("other", "other_float"):
+                try:
+                    if not hasattr(cfg, sib) or not got:
+                        continue
+                    setattr(cfg, sib, dict(got))
+                    held = getattr(cfg, sib)
+                    if dict(plain(held)) != dict(got):
+                        continue
+                except Exception:
+                    continue
+                checks += [("eq-sibling-field", proxy == held, True), ("ne-sibling-field", proxy != held, False)]
+                res.count("dict_equality_with_a_sibling_field")
         if ref:
             k = next(iter(ref))
             checks += [("getitem", got[k], ref[k]), ("get", plain(proxy.get(k)), ref.get(k)), ("contains", k in proxy, True)]
